@@ -20,10 +20,16 @@ set_option maxHeartbeats 8000000
 /-- the round body of this file is, expression for expression, the round body of the parallel-ECB file (both are
 regenerated; the comparison is by unfolding, so a rewrite of one of the two files needs this lemma re-proved) -/
 theorem v128c_enc_round_eq (r0 r1 r2 r3 : BitVec 32) (sk : BitVec 64) : v128c_enc_round r0 r1 r2 r3 sk = v128p_enc_round r0 r1 r2 r3 sk := by
-  simp only [v128c_enc_round, v128p_enc_round, gen_unfold]
+  first
+  | (simp only [v128c_enc_round, v128p_enc_round, gen_unfold]; done)
+  | (refine Prod.ext ?_ (Prod.ext ?_ (Prod.ext ?_ ?_)) <;>
+      (bv_bits 32 <;> ((try simp [v128c_enc_round, v128p_enc_round, gen_unfold]); (try ac_rfl))))
 
 theorem v128c_enc_round_w32_eq (r0 r1 r2 r3 : BitVec 32) (sk : BitVec 64) : v128c_enc_round_w32 r0 r1 r2 r3 sk = v128p_enc_round r0 r1 r2 r3 sk := by
-  simp only [v128c_enc_round_w32, v128p_enc_round, gen_unfold]
+  first
+  | (simp only [v128c_enc_round_w32, v128p_enc_round, gen_unfold]; done)
+  | (refine Prod.ext ?_ (Prod.ext ?_ (Prod.ext ?_ ?_)) <;>
+      (bv_bits 32 <;> ((try simp [v128c_enc_round_w32, v128p_enc_round, gen_unfold]); (try ac_rfl))))
 
 /-- one lane of the vector round = the scalar 32-bit round of the C library (64-bit-word build: `skinny128_sbox_four`) -/
 theorem v128c_enc_round_scalar (t : BitVec 32 × BitVec 32 × BitVec 32 × BitVec 32) (sk : BitVec 64) :
